@@ -3,6 +3,8 @@
 set -u
 patch="$(realpath "$1")"; id="$2"; mode="${3:-quick}"
 cd /verif
+# serialise every user of /repo (mutants, seed sweeps) on one lock
+exec 9>/tmp/repo.lock; flock 9
 if ! git -C /repo diff --quiet; then echo "refusing: /repo has uncommitted changes"; exit 3; fi
 git -C /repo apply "$patch" || { echo "RESULT $(basename "$patch") $id apply-failed"; exit 3; }
 out="$(./check "$id" "$mode" --no-evidence 2>&1)"; code=$?
